@@ -1,6 +1,6 @@
 """C17 — umbrella over the integration groups (written by tools_assemble_props.py)."""
 PID = "C17"
-PARTS = ['c17a', 'c17b']
+PARTS = ['c17a', 'c17b', 'c17c']
 LEVEL = "proof"
 RULE = ("per integration group: every encoder/decoder entry point x every harness width x boundary-biased values / "
         "mutated encodings (see the part modules vlib/p_c17?.py); non-trivial and distinct as defined there")
